@@ -128,3 +128,20 @@ Definition w_wf : prog :=
 Lemma w_wf_ok : wf (SBlock w_wf) = true /\
   run_o 100 [10%nat] 0 w_wf = (mkst [(10%nat, VNum 2)] [VNum 1; VNum 2] 44 0 None, [], OReturned (VNum 2)).
 Proof. split; vm_compute; reflexivity. Qed.
+
+(* a well-formed program over the other statement forms: for (with and without parts, empty body),
+   do-while, a labelled switch with fall-through, default in the middle and a break out of a nested loop *)
+Definition w_wf2 : prog :=
+  [SFor (Some (EAssign 10%nat (ELit (VNum 0)))) (Some (EBin BLt (EVar 10%nat) (ELit (VNum 3)))) (Some (EPostInc 10%nat))
+     [SLabelled 3%nat (SSwitch (EVar 10%nat)
+        [(Some (ELit (VNum 0)), [SExpr (ELog (ELit (VNum 100)))]);
+         (None, [SExpr (ELog (ELit (VNum 200))); SBreak 0%nat]);
+         (Some (ELog (ELit (VNum 9))), [SExpr (ELog (ELit (VNum 500)))]);
+         (Some (ELit (VNum 2)), [SDoWhile [SExpr (ELog (ELit (VNum 300))); SBreak 3%nat] (ELit (VBool true))]);
+         (Some (ELit (VNum 7)), [SExpr (ELog (ELit (VNum 400)))])])];
+   SFor None (Some (EBin BLt (EPostInc 11%nat) (ELit (VNum 1)))) None [];
+   SReturn (EVar 10%nat)].
+Lemma w_wf2_ok : wf (SBlock w_wf2) = true /\
+  (let '(s, L, o) := run_o 400 [10%nat; 11%nat] 0 w_wf2 in (out s, L, o)) =
+    ([VNum 100; VNum 200; VNum 9; VNum 200; VNum 9; VNum 300], [], OReturned (VNum 3)).
+Proof. split; vm_compute; reflexivity. Qed.
